@@ -403,6 +403,24 @@ func checkC14(c C14Case) (o Outcome) {
 			return
 		}
 	}
+	// 3c. the assembler, given the listing, gives the same answer whatever it was used for
+	// before - in particular after a run whose output sink broke part-way
+	if textSafe(ins) {
+		var a1, a2 bytes.Buffer
+		var e1, e2 error
+		if p := catchPanic(func() {
+			_, e1 = asm.Parse(text, &a1)
+			asm.Parse(text, &failingWriter{after: a1.Len() / 2})
+			_, e2 = asm.Parse(text, &a2)
+		}); p != nil {
+			o.Viol = &Violation{Kind: "asm-panic", Msg: fmt.Sprintf("asm.Parse panics on the listing %q: %s", text, p.val), Detail: p.stack}
+			return
+		}
+		if (e1 == nil) != (e2 == nil) || !bytes.Equal(a1.Bytes(), a2.Bytes()) {
+			o.Viol = viol("assembler-depends-on-history", "the listing %q assembles to %x (%v); after an assembly whose output failed half-way it assembles to %x (%v)", text, a1.Bytes(), e1, a2.Bytes(), e2)
+			return
+		}
+	}
 	// 4. reference decoder
 	dec, _, derr := refdec.DecodeAll(enc)
 	if derr != nil || !refdec.Equal(dec, ins) {
